@@ -43,4 +43,12 @@ CHECKS = {
         note=COMMON_NOTE,
         technique="TLA+ operator semantics + TLC BFS case enumeration, replayed into operator API and Model.Run",
         design_ref="DESIGN.md section 6 (C07)"),
+    "C08": dict(
+        text="Bounded-exhaustive: TLC enumerates requests for Transpose, Concat, Slice, Gather and Expand within the bounds of the evidence "
+             "rule and computes, from the ONNX index formulae of spec/OpIndex.tla over distinct element ids, the exact expected tensor, 'error' "
+             "for invalid requests, or value-or-error where the property offers refusal; bit-exact comparison in three execution modes. "
+             "Two open findings (Slice drops unit axes; Slice step on axis 0) are recognised only through defect models that predict the exact wrong tensor.",
+        note=COMMON_NOTE,
+        technique="TLA+ operator semantics + TLC BFS case enumeration, replayed into operator API and Model.Run; defect models for known findings",
+        design_ref="DESIGN.md section 6 (C08)"),
 }
